@@ -12,6 +12,11 @@ Two families of streams, one oracle:
   negative …) go through the real `execute_single` / `AsyncExecutor` / schedule / `Sampler` on a virtual clock
   (harness/sim_vloop.py) and from there through the same driver buffer / post-processor / store; the model is fed the
   RUNNER's results (`Throughput.sampleOf`), so the plumbing in front of the calculator is inside the comparison.
+  Time-period tasks with `ramp-up-time-period` are included and `time_period` is taken from the case's own clock readings
+  (arrival of the response - start of the task).
+* store faults (driver and executor streams): the store the post-processor writes to raises `RallyError` at a chosen run
+  while a throughput record / another record is written or in `flush()`; model: the race aborts (`driverRunF`);
+  oracle: every reported value counts every operation exactly once - or nothing more is reported.
 Returned tuples / records are compared exactly (`float.as_integer_ratio`).  The direct oracle recomputes, with
 `Fraction`s and without any bucket logic, what every emitted value has to be: (sum of the operations of
 all samples fed so far except those sorted after the emitting sample in the current batch, each once) /
@@ -28,7 +33,8 @@ RULE = ("sample streams of 1-3 tasks x 1-4 clients (warm-up then normal samples,
         "(b) into worker shipments and post-processing runs of ONE Driver/SamplePostprocessor/metrics store (run at the end only, after every shipment, "
         "random incl. runs with an empty buffer; boundary stream: every placement of one or two runs between two clients' samples) + a final far-future "
         "flush sample per task that makes the carried state observable, (c) scripted runner results (throughput absent/None/0/0.0/-0.0/5e-324/1e300/2^70/"
-        "negative/ordinary, weight and unit present or defaulted) through real execute_single/AsyncExecutor/Sampler into (b); a case is non-trivial when at least one call starts with carried-over samples; "
+        "negative/ordinary, weight and unit present or defaulted; iteration / runner-completes / time-period tasks, the latter with ramp-up) through real "
+        "execute_single/AsyncExecutor/Sampler into (b); (b) and (c) with store faults (put throughput / put other / flush, any run); a case is non-trivial when at least one call starts with carried-over samples; "
         "signature = (model branch tags, cutting mode, number of tasks, oracle outcome[, samples after a batch with a 100 % sample])")
 TRUSTED = [
     "IEEE-754 model RallyModel/Dbl.lean for `a - b`, `float(count)` and `count / interval` (validated bit-for-bit against CPython; the floats "
@@ -232,7 +238,8 @@ class Oracle:
                         {"ops": n, "elapsed": fs(iv), "value": fs(Fraction(float(want)))}, {"value": v, "tuple": t}))
         return out
 
-    def step(self, ci, call, outs):
+    def step(self, ci, call, outs, truncated=False):
+        """truncated: the store failed during this run, the records are only required to be a prefix of the run's records"""
         ctx, exact, fail = self.ctx, self.exact, self.fail
         groups = {}
         for s in call:
@@ -257,7 +264,7 @@ class Oracle:
             merged = sorted(batch + st["pending"], key=lambda s: Fraction(s["abs"]))
             if st["mode"] == "pass":
                 exp = [[s["abs"], s["rel"], s["normal"], s["tput"], s["unit"] + "/s"] for s in merged]
-                if tuples != exp:
+                if tuples != (exp[: len(tuples)] if truncated else exp):
                     fail("passthrough", f"call {ci} task {k}: runner-supplied throughput not passed through one per sample", exp, tuples)
                 continue
             if st["start"] is None:
@@ -304,7 +311,7 @@ class Oracle:
             if any(ty[i] and not ty[i + 1] for i in range(len(ty) - 1)):
                 fail("type-regression", f"call {ci} task {k}: a warm-up value follows a normal value", None, ty)
             # a normal sample and positive elapsed time -> a normal-type value exists
-            if any(s["normal"] for s in st["fed"]) and any(Fraction(s["abs"]) > start for s in st["fed"]):
+            if not truncated and any(s["normal"] for s in st["fed"]) and any(Fraction(s["abs"]) > start for s in st["fed"]):
                 if not any(ty):
                     fail("no-normal-value", f"call {ci} task {k}: normal samples and positive elapsed time but no normal-type throughput value", "some", ty)
 
@@ -576,6 +583,16 @@ def run_case(ctx, case):
 # ---------------------------------------------------------------------------------------------
 # the owner of the calculator: Driver.update_samples / post_process_samples -> SamplePostprocessor -> metrics store
 # ---------------------------------------------------------------------------------------------
+def gen_faults(rng, nruns, p=0.3):
+    """store failures: which run, where in the run (before / during / after the throughput records), one or several"""
+    if nruns <= 0 or rng.random() >= p:
+        return []
+    out = []
+    for _ in range(rng.choice([1, 1, 2])):
+        out.append({"run": rng.randrange(nruns), "kind": rng.choice(["flush", "flush", "put_throughput", "put_other"]), "nth": rng.choice([0, 0, 1, 2, 5])})
+    return out
+
+
 def gen_driver_cases(rng, exact=True, pass_prob=0.0):
     """one race fragment: clients spread over workers, every worker ships its samples in chunks (UpdateSamples), the
     driver post-processes at arbitrary points (timer, join point): 3 placements of the runs for the same shipments"""
@@ -620,7 +637,8 @@ def gen_driver_cases(rng, exact=True, pass_prob=0.0):
         events.append("pp")  # join point: everything shipped so far is post-processed
         events.append(flush)
         events.append("pp")
-        yield {"exact": exact or int_times, "copies": copies, "cut": placement, "ntasks": ntasks, "downsample": downsample, "events": events}
+        yield {"exact": exact or int_times, "copies": copies, "cut": placement, "ntasks": ntasks, "downsample": downsample, "events": events,
+               "faults": gen_faults(rng, len([e for e in events if e == "pp"]) - 1)}
 
 
 def gen_driver_dyadic(ctx):
@@ -681,7 +699,8 @@ def gen_driver_boundary(ctx):
             for smp in stream[prev:]:
                 events.append([smp])
             events += ["pp", fl, "pp"]
-            yield {"exact": True, "copies": False, "cut": "all-placements", "ntasks": 1, "downsample": 1, "events": events}
+            yield {"exact": True, "copies": False, "cut": "all-placements", "ntasks": 1, "downsample": 1, "events": events,
+                   "faults": gen_faults(rng, len(cut) + 1, p=0.25)}
 
 
 _STORE_CFG = None
@@ -730,15 +749,44 @@ def _drive(ctx, case, events):
     from esrally.driver import driver
     from esrally import metrics
 
+    from esrally import exceptions
+
     cfg, store = _new_store()
     spy = []
     orig = store.put_value_cluster_level
+    orig_flush = store.flush
+    # fault injection: the store the post-processor writes to raises RallyError (what EsMetricsStore does when the metrics
+    # cluster times out / rejects a bulk) at a chosen point of a chosen run: while a throughput record is written, while
+    # another record is written (i.e. before calculate()), or in the final flush() (i.e. after calculate())
+    cur = {"fault": None, "tp": 0, "other": 0, "fired": False}
+
+    def boom():
+        cur["fired"] = True
+        raise exceptions.RallyError("injected metrics store failure")
 
     def put_value_cluster_level(*a, **kw):
+        f = cur["fault"]
+        is_tp = kw.get("name") == "throughput"
+        if f is not None and not cur["fired"]:
+            if f["kind"] == "put_throughput" and is_tp and cur["tp"] == f["nth"]:
+                boom()
+            if f["kind"] == "put_other" and not is_tp and cur["other"] == f["nth"]:
+                boom()
+        cur["tp" if is_tp else "other"] += 1
         spy.append((a, kw))
         return orig(*a, **kw)
 
+    def flush(*a, **kw):
+        f = cur["fault"]
+        if f is not None and not cur["fired"] and f["kind"] == "flush":
+            boom()
+        return orig_flush(*a, **kw)
+
     store.put_value_cluster_level = put_value_cluster_level
+    store.flush = flush
+    faults = {f["run"]: f for f in case.get("faults", [])}
+    aborted = False
+    swallowed = False
     d = driver.Driver(None, cfg)
     d.metrics_store = store
     d.sample_post_processor = driver.SamplePostprocessor(store, case.get("downsample", 1), {}, {})
@@ -755,9 +803,22 @@ def _drive(ctx, case, events):
             pending_batch += [t[2] for t in ev]
             d.update_samples([t[0] for t in ev])
             continue
-        model_events.append("pp")
         n_spy, n_docs = len(spy), len(store.docs)
-        d.post_process_samples()
+        cur.update({"fault": faults.get(ci), "tp": 0, "other": 0, "fired": False})
+        try:
+            d.post_process_samples()
+        except exceptions.RallyError as e:
+            if not cur["fired"]:
+                raise HarnessError(f"post_process_samples raised without an injected fault: {e}")
+            aborted = True  # the error leaves the driver: the actor reports a BenchmarkFailure, the race is over
+        if cur["fired"]:
+            f = cur["fault"]
+            model_events.append({"fault": None if f["kind"] == "flush" else (f["nth"] if f["kind"] == "put_throughput" else 0)})
+            ctx.count("store-fault:" + f["kind"])
+            if not aborted:
+                swallowed = True
+        else:
+            model_events.append("pp")
         recs = []
         for a, kw in spy[n_spy:]:
             if a or kw.get("name") is None:
@@ -787,11 +848,14 @@ def _drive(ctx, case, events):
             orc.fail("task-keys", f"run {ci}: throughput records for tasks without samples in the batch", groups, stray[:3])
         if pending_batch:
             canon = [[k, [r[1] for r in recs if r[0] == k]] for k in groups]
-            orc.step(ci, pending_batch, canon)
+            orc.step(ci, pending_batch, canon, truncated=cur["fired"])
         elif recs:
             orc.fail("task-keys", f"run {ci}: records although nothing was shipped since the last run", [], recs[:3])
         pending_batch = []
         ci += 1
+        if aborted:
+            ctx.count("aborted-by-store-fault")
+            break
         if orc.stale_run() >= STALE_CAP and ei + 1 < len(events):
             ctx.count("truncated-after-stale-run")
             break
@@ -827,7 +891,10 @@ def _drive(ctx, case, events):
     ctx.count("samples", nsamples)
     ctx.count("outcome:" + orc.outcome)
     ctx.count("class:samples-after-a-100%-batch" if early_done else "class:no-samples-after-a-100%-batch")
-    ctx.sig([tags, case.get("cut"), case.get("ntasks"), orc.outcome, early_done] + list(case.get("sig_extra", [])), nontrivial="carry" in tags or bool(case.get("sig_extra")))
+    if swallowed:
+        ctx.count("store-fault-swallowed-race-continued")
+    ctx.sig([tags, case.get("cut"), case.get("ntasks"), orc.outcome, early_done, aborted, swallowed] + list(case.get("sig_extra", [])),
+            nontrivial="carry" in tags or bool(case.get("sig_extra")) or aborted)
 
 
 # ---------------------------------------------------------------------------------------------
@@ -864,16 +931,28 @@ def gen_exec_cases(rng):
     for k in range(ntasks):
         mode = rng.choice(["supplied", "supplied", "supplied", "computed", "mixed"])
         unit = rng.choice(["docs", "ops", "byte", None])
-        loop = rng.choice(["iterations", "iterations", "runner-completes"])
+        loop = rng.choice(["iterations", "iterations", "runner-completes", "time", "time"])
         # a runner that supplies throughput / decides completion itself must be called by one client only (driver.py)
         nclients = 1 if loop == "runner-completes" else rng.choice([1, 1, 2, 3])
+        tparams = None
+        if loop == "time":
+            # time-period based task, optionally with a ramp-up (legal only with warmup-time-period >= ramp-up-time-period):
+            # client i starts its first request ramp_up * i / clients seconds after the task started
+            mode = rng.choice(["computed", "computed", "computed", "supplied"])
+            nclients = rng.choice([2, 2, 3, 4])
+            W = Fraction(rng.choice([1, 2, 3, 4]))
+            T = Fraction(rng.choice([1, 2, 4]))
+            R = rng.choice([None, W, W, W / 2, W * 3 / 4])
+            tparams = {"warmup_t": fs(W), "period": fs(T), "ramp_up": None if R is None else fs(R)}
         clients = []
         for c in range(nclients):
             n = rng.choice([1, 2, 3, 5, 8, 12])
             warm = rng.choice([0, 0, 1, 2]) if loop == "iterations" else 0
+            if loop == "time":
+                n, warm = 40, 0  # more than fit into warm-up + time period; the schedule stops by the clock
             calls = []
             for i in range(n + warm):
-                service = Fraction(rng.choice([1, 2, 4, 8, 16, 24, 40]), 16)
+                service = Fraction(rng.choice([4, 8, 8, 16, 24] if loop == "time" else [1, 2, 4, 8, 16, 24, 40]), 16)
                 if i == 0:
                     service += Fraction(c + 1, 4096)  # keeps the time stamps of different clients distinct
                 r = rng.random()
@@ -889,11 +968,13 @@ def gen_exec_cases(rng):
                         res = {"k": "dict", "w": rng.choice([None, 0, 1, 100, 5000]), "unit": unit, "tput": "absent" if kind == "dict-absent" else None}
                 calls.append({"service": fs(service), "result": res})
             clients.append({"worker": rng.randrange(2), "n": n, "warm": warm, "calls": calls})
-        tasks.append({"k": k, "mode": mode, "loop": loop, "clients": clients})
-    base = {"exact": True, "copies": False, "ntasks": ntasks, "downsample": rng.choice([1, 1, 2]),
+        tasks.append({"k": k, "mode": mode, "loop": loop, "tparams": tparams, "clients": clients})
+    # a ramp-up wait is ramp_up * i / clients: not a dyadic number in general, the sums of times are then rounded
+    inexact = any(t["tparams"] is not None and t["tparams"]["ramp_up"] is not None for t in tasks)
+    base = {"exact": not inexact, "copies": False, "ntasks": ntasks, "downsample": rng.choice([1, 1, 2]),
             "t0": fs(Fraction(rng.randrange(0, 4000), 4)), "epoch": fs(Fraction(1470838595) + Fraction(rng.randrange(0, 64), 8)), "tasks": tasks}
     for placement in ("end-only", "every-shipment", "random"):
-        yield dict(base, cut=placement, seed=rng.randrange(1 << 30))
+        yield dict(base, cut=placement, seed=rng.randrange(1 << 30), faults=gen_faults(rng, 6, p=0.2))
 
 
 def gen_exec(ctx):
@@ -959,6 +1040,7 @@ def run_exec_case(ctx, case):
     clock = sim_vloop.VClock(float(Fraction(case["t0"])), float(Fraction(case["epoch"])))
     script = {(t["k"], ci): cl["calls"] for t in case["tasks"] for ci, cl in enumerate(t["clients"])}
     progress = {}
+    ends = {}  # the case's own measurement: performance counter when the response of each runner call arrived
 
     class Source:
         infinite = True
@@ -995,6 +1077,7 @@ def run_exec_case(ctx, case):
             if service > 0:
                 await asyncio.sleep(service)
             es.on_request_end()
+            ends.setdefault((params["k"], params["c"]), []).append(clock.perf_counter())
             return _result_py(q["result"])
 
         def __repr__(self):
@@ -1026,20 +1109,28 @@ def run_exec_case(ctx, case):
             registered.append(op_type)
             ncl = len(t["clients"])
             # iteration counts are per task in Rally; clients with fewer scripted calls stop when their parameter source is exhausted
-            task = track.Task(f"task-{t['k']}", track.Operation(f"op-{t['k']}", op_type, params={}),
-                              warmup_iterations=None if polling else max(cl["warm"] for cl in t["clients"]),
-                              iterations=None if polling else max(cl["n"] for cl in t["clients"]),
-                              clients=ncl)
+            tp = t.get("tparams")
+            if tp is not None:
+                task = track.Task(f"task-{t['k']}", track.Operation(f"op-{t['k']}", op_type, params={}),
+                                  warmup_time_period=float(Fraction(tp["warmup_t"])), time_period=float(Fraction(tp["period"])),
+                                  ramp_up_time_period=None if tp["ramp_up"] is None else float(Fraction(tp["ramp_up"])), clients=ncl)
+            else:
+                task = track.Task(f"task-{t['k']}", track.Operation(f"op-{t['k']}", op_type, params={}),
+                                  warmup_iterations=None if polling else max(cl["warm"] for cl in t["clients"]),
+                                  iterations=None if polling else max(cl["n"] for cl in t["clients"]),
+                                  clients=ncl)
             tasks_by_k[t["k"]] = task
             for ci, cl in enumerate(t["clients"]):
                 w = cl["worker"]
                 if w not in samplers:
                     samplers[w] = driver.Sampler(start_timestamp=clock.perf_counter())
-                alloc = driver.TaskAllocation(task=task, client_index_in_task=ci, global_client_index=len(executors), total_clients=ncl)
+                alloc = driver.TaskAllocation(task=task, client_index_in_task=ci, global_client_index=ci, total_clients=ncl)
                 handle = driver.schedule_for(alloc, Source(t["k"]))
                 executors.append(driver.AsyncExecutor(client_id=len(executors), task=task, schedule=handle, es={"default": SimClient()},
                                                       sampler=samplers[w], cancel=threading.Event(), complete=threading.Event(), on_error="continue"))
                 executors[-1]._c06 = (t["k"], ci)
+
+        task_start_perf = clock.perf_counter()  # every client's executor starts on its task now (the ramp-up wait comes after)
 
         async def main():
             await asyncio.gather(*[ex() for ex in executors])
@@ -1063,10 +1154,14 @@ def run_exec_case(ctx, case):
             i = seen.get(o.client_id, 0)
             seen[o.client_id] = i + 1
             res = script[(k, ci)][i]["result"]
-            ms = {"task": k, "abs": fs(o.absolute_time), "rel": fs(o.relative_time), "period": fs(o.time_period),
+            # time_period is "time since the task started": taken from the case's own clock readings (arrival of the response,
+            # start of the task), not from the sample
+            req_end = ends[(k, ci)][i]
+            ms = {"task": k, "abs": fs(o.absolute_time), "rel": fs(o.relative_time), "req_end": fs(req_end), "total_start": fs(task_start_perf),
                   "normal": o.sample_type.name == "Normal", "result": _result_model(res)}
             ops, unit, tp = _result_oracle(res)
-            osmp = {"task": k, "abs": ms["abs"], "rel": ms["rel"], "period": ms["period"], "normal": ms["normal"], "ops": ops, "unit": unit, "tput": tp}
+            osmp = {"task": k, "abs": ms["abs"], "rel": ms["rel"], "period": fs(Fraction(req_end) - Fraction(task_start_perf)), "normal": ms["normal"],
+                    "ops": ops, "unit": unit, "tput": tp}
             triples.append((o, ms, osmp, o.client_id, o.percent_completed))
         chunks = []
         i = 0
@@ -1077,7 +1172,8 @@ def run_exec_case(ctx, case):
         per_worker.append(chunks)
     for (k, ci), calls in script.items():
         cid = [c for c, kc in kc_of_client.items() if kc == (k, ci)][0]
-        if seen.get(cid, 0) != len(calls):
+        timed = [t for t in case["tasks"] if t["k"] == k][0].get("tparams") is not None
+        if (seen.get(cid, 0) > len(calls)) if timed else (seen.get(cid, 0) != len(calls)):
             orc_note = f"client {cid} of task {k}: {len(calls)} runner calls scripted, {seen.get(cid, 0)} samples"
             raise HarnessError("executor did not produce one sample per scripted call: " + orc_note)
     while any(per_worker):
